@@ -1,5 +1,577 @@
 import FluentModel.SpecGrammar
 import FluentModel.JoinText
 import FluentProofs.ParserBasics
+/-!
+# Lexical layer: the parser model's scanners versus the grammar's lexical rules (C02, T1)
+
+The parser model works on `s : Src` with a cursor `p`; the grammar (`SpecGrammar`) on the remaining
+input.  `rest s p` is the bridge: the bytes of `s` from `p` on.
+-/
 namespace FluentProofs.SpecLex
+open FluentModel FluentModel.Syntax FluentModel.SpecGrammar FluentProofs.Parser
+
+/-- the input that remains at cursor `p` -/
+def rest (s : Src) (p : Nat) : List UInt8 := s.toList.drop p
+
+theorem rest_cons {s : Src} {p : Nat} {b : UInt8} (h : s[p]? = some b) : rest s p = b :: rest s (p + 1) := by
+  have hlt := get_lt h
+  have hb : s[p] = b := by
+    have := Array.getElem?_eq_some_iff.mp h
+    exact this.2
+  unfold rest
+  rw [List.drop_eq_getElem_cons (by simpa using hlt)]
+  simp [hb]
+
+theorem rest_nil {s : Src} {p : Nat} (h : s[p]? = none) : rest s p = [] := by
+  have : s.size ≤ p := by simpa using h
+  unfold rest
+  exact List.drop_eq_nil_of_le (by simpa using this)
+
+theorem rest_eq_nil_iff {s : Src} {p : Nat} : rest s p = [] ↔ s.size ≤ p := by
+  unfold rest; simp
+
+theorem rest_cases (s : Src) (p : Nat) :
+    (s[p]? = none ∧ rest s p = []) ∨ (∃ b, s[p]? = some b ∧ rest s p = b :: rest s (p + 1)) := by
+  cases h : s[p]? with
+  | none => exact Or.inl ⟨rfl, rest_nil h⟩
+  | some b => exact Or.inr ⟨b, rfl, rest_cons h⟩
+
+
+/-! ## blank_inline -/
+
+theorem spaces_cons_ne {b : UInt8} (r : List UInt8) (h : b ≠ 32) : spaces (b :: r) = b :: r := by
+  unfold spaces
+  split
+  · rename_i heq; simp at heq; exact absurd heq.1 h
+  · rfl
+
+theorem spaces_skipBlankInlineGo (s : Src) (n p : Nat) (hn : s.size - p ≤ n) :
+    spaces (rest s p) = rest s (skipBlankInlineGo s n p) := by
+  induction n generalizing p with
+  | zero =>
+    have : rest s p = [] := rest_eq_nil_iff.mpr (by omega)
+    simp [skipBlankInlineGo, this, spaces]
+  | succ n ih =>
+    simp only [skipBlankInlineGo]
+    rcases rest_cases s p with ⟨h1, h2⟩ | ⟨b, h1, h2⟩
+    · simp [h1, h2, spaces]
+    · by_cases hb : b = 32
+      · subst hb
+        simp only [h1, h2, beq_self_eq_true, if_true]
+        rw [show spaces (32 :: rest s (p + 1)) = spaces (rest s (p + 1)) by simp [spaces]]
+        exact ih (p + 1) (by omega)
+      · have : (s[p]? == some (32 : UInt8)) = false := by simp [h1, hb]
+        simp only [this]
+        simp only [Bool.false_eq_true, if_false]
+        rw [h2, spaces_cons_ne _ hb]
+
+/-- T1: `blank_inline?` is `skip_blank_inline` -/
+theorem spaces_eq_skipBlankInline (s : Src) (p : Nat) :
+    spaces (rest s p) = rest s (skipBlankInline s p) :=
+  spaces_skipBlankInlineGo s _ p (Nat.le_refl _)
+
+
+/-! ## line_end -/
+
+theorem lineEnd_other {b : UInt8} (r : List UInt8) (h1 : b ≠ 10) (h2 : b ≠ 13) : lineEnd (b :: r) = none := by
+  unfold lineEnd
+  split <;> simp_all
+
+theorem lineEnd_cr_other {b : UInt8} (r : List UInt8) (h1 : b ≠ 10) : lineEnd (13 :: b :: r) = none := by
+  unfold lineEnd
+  split <;> simp_all
+
+theorem lineEnd_cr_eof : lineEnd [13] = none := by decide
+
+/-- T1: `line_end` is `skip_eol`, except that the grammar also accepts `EOF` -/
+theorem lineEnd_eq_skipEol (s : Src) (p : Nat) :
+    lineEnd (rest s p) =
+      (match skipEol s p with
+       | some q => some (rest s q)
+       | none => if s.size ≤ p then some [] else none) := by
+  rcases rest_cases s p with ⟨h1, h2⟩ | ⟨b, h1, h2⟩
+  · have : s.size ≤ p := by simpa using h1
+    simp [skipEol, h1, h2, lineEnd, this]
+  · have hlt : ¬ s.size ≤ p := by have := get_lt h1; omega
+    by_cases hb : b = 10
+    · subst hb
+      simp [skipEol, h1, h2, lineEnd]
+    · by_cases hc : b = 13
+      · subst hc
+        rcases rest_cases s (p + 1) with ⟨g1, g2⟩ | ⟨c, g1, g2⟩
+        · simp [skipEol, h1, h2, g1, g2, lineEnd_cr_eof, hlt]
+        · by_cases hd : c = 10
+          · subst hd
+            simp [skipEol, h1, h2, g1, g2, lineEnd]
+          · simp [skipEol, h1, h2, g1, g2, lineEnd_cr_other _ hd, hd, hlt]
+      · rw [h2, lineEnd_other _ hb hc]
+        unfold skipEol
+        rw [h1]
+        split <;> simp_all
+
+
+/-! ## blank -/
+
+theorem blankOpt_other {b : UInt8} (r : List UInt8) (h1 : b ≠ 32) (h2 : b ≠ 10) (h3 : b ≠ 13) :
+    blankOpt (b :: r) = b :: r := by
+  unfold blankOpt
+  split <;> simp_all
+
+theorem blankOpt_cr_other {b : UInt8} (r : List UInt8) (h1 : b ≠ 10) : blankOpt (13 :: b :: r) = 13 :: b :: r := by
+  unfold blankOpt
+  split <;> simp_all
+
+theorem blankOpt_cr_eof : blankOpt [13] = [13] := by
+  unfold blankOpt
+  split <;> simp_all
+
+theorem blankOpt_skipBlankGo (s : Src) (n p : Nat) (hn : s.size - p ≤ n) :
+    blankOpt (rest s p) = rest s (skipBlankGo s n p) := by
+  induction n generalizing p with
+  | zero =>
+    have : rest s p = [] := rest_eq_nil_iff.mpr (by omega)
+    simp [skipBlankGo, this, blankOpt]
+  | succ n ih =>
+    rcases rest_cases s p with ⟨h1, h2⟩ | ⟨b, h1, h2⟩
+    · simp [skipBlankGo, h1, h2, blankOpt]
+    · by_cases hb : b = 32
+      · subst hb
+        simp only [skipBlankGo, h1, h2]
+        rw [show blankOpt (32 :: rest s (p + 1)) = blankOpt (rest s (p + 1)) by simp [blankOpt]]
+        exact ih (p + 1) (by omega)
+      · by_cases hc : b = 10
+        · subst hc
+          simp only [skipBlankGo, h1, h2]
+          rw [show blankOpt (10 :: rest s (p + 1)) = blankOpt (rest s (p + 1)) by simp [blankOpt]]
+          exact ih (p + 1) (by omega)
+        · by_cases hd : b = 13
+          · subst hd
+            rcases rest_cases s (p + 1) with ⟨g1, g2⟩ | ⟨c, g1, g2⟩
+            · simp [skipBlankGo, h1, h2, g1, g2, blankOpt_cr_eof]
+            · by_cases he : c = 10
+              · subst he
+                simp only [skipBlankGo, h1, h2, g1, g2, beq_self_eq_true, if_true]
+                rw [show blankOpt (13 :: 10 :: rest s (p + 1 + 1)) = blankOpt (rest s (p + 2)) by simp [blankOpt]]
+                exact ih (p + 2) (by omega)
+              · have : (s[p + 1]? == some (10 : UInt8)) = false := by simp [g1, he]
+                simp only [skipBlankGo, h1, this]
+                simp only [Bool.false_eq_true, if_false]
+                rw [h2, g2, blankOpt_cr_other _ he]
+          · rw [h2, blankOpt_other _ hb hc hd]
+            unfold skipBlankGo
+            rw [h1]
+            split <;> simp_all
+
+/-- T1: `blank?` is `skip_blank` -/
+theorem blankOpt_eq_skipBlank (s : Src) (p : Nat) : blankOpt (rest s p) = rest s (skipBlank s p) :=
+  blankOpt_skipBlankGo s _ p (Nat.le_refl _)
+
+
+/-! ## blank_block -/
+
+theorem skipBlankInlineGo_stop (s : Src) (n p : Nat) (hn : s.size - p ≤ n) :
+    s[skipBlankInlineGo s n p]? ≠ some 32 := by
+  induction n generalizing p with
+  | zero =>
+    have : s[p]? = none := by simp; omega
+    simp [skipBlankInlineGo, this]
+  | succ n ih =>
+    simp only [skipBlankInlineGo]
+    split
+    · exact ih (p + 1) (by omega)
+    · rename_i h; simpa using h
+
+theorem skipBlankInline_stop (s : Src) (p : Nat) : s[skipBlankInline s p]? ≠ some 32 :=
+  skipBlankInlineGo_stop s _ p (Nat.le_refl _)
+
+theorem scan_other {b : UInt8} (r ls : List UInt8) (c : Nat) (h1 : b ≠ 32) (h2 : b ≠ 10) (h3 : b ≠ 13) :
+    blankBlockScan (b :: r) ls c = if c == 0 then none else some (c, ls) := by
+  unfold blankBlockScan
+  split <;> simp_all
+
+theorem scan_cr_other {b : UInt8} (r ls : List UInt8) (c : Nat) (h1 : b ≠ 10) :
+    blankBlockScan (13 :: b :: r) ls c = if c == 0 then none else some (c, ls) := by
+  unfold blankBlockScan
+  split <;> simp_all
+
+theorem scan_cr_eof (ls : List UInt8) (c : Nat) :
+    blankBlockScan [13] ls c = if c == 0 then none else some (c, ls) := by
+  unfold blankBlockScan
+  split <;> simp_all
+
+theorem scan_spaces_go (s : Src) (ls : List UInt8) (c n p : Nat) (hn : s.size - p ≤ n) :
+    blankBlockScan (rest s p) ls c = blankBlockScan (rest s (skipBlankInlineGo s n p)) ls c := by
+  induction n generalizing p with
+  | zero => simp [skipBlankInlineGo]
+  | succ n ih =>
+    simp only [skipBlankInlineGo]
+    split
+    · rename_i h
+      have h : s[p]? = some 32 := by simpa using h
+      rw [rest_cons h, show blankBlockScan (32 :: rest s (p + 1)) ls c = blankBlockScan (rest s (p + 1)) ls c by
+        simp [blankBlockScan]]
+      exact ih (p + 1) (by omega)
+    · rfl
+
+/-- one line of the scan, from a position that is not a space -/
+theorem scan_line (s : Src) (ls : List UInt8) (c p : Nat) (hp : s[p]? ≠ some 32) :
+    blankBlockScan (rest s p) ls c =
+      (match skipEol s p with
+       | some q => blankBlockScan (rest s q) (rest s q) (c + 1)
+       | none => if s.size ≤ p then some (c, []) else if c == 0 then none else some (c, ls)) := by
+  rcases rest_cases s p with ⟨h1, h2⟩ | ⟨b, h1, h2⟩
+  · have : s.size ≤ p := by simpa using h1
+    simp [skipEol, h1, h2, blankBlockScan, this]
+  · have hlt : ¬ s.size ≤ p := by have := get_lt h1; omega
+    have hb32 : b ≠ 32 := by intro h; subst h; exact hp h1
+    by_cases hb : b = 10
+    · subst hb
+      simp [skipEol, h1, h2, blankBlockScan]
+    · by_cases hc : b = 13
+      · subst hc
+        rcases rest_cases s (p + 1) with ⟨g1, g2⟩ | ⟨d, g1, g2⟩
+        · simp [skipEol, h1, h2, g1, g2, scan_cr_eof, hlt]
+        · by_cases hd : d = 10
+          · subst hd
+            simp [skipEol, h1, h2, g1, g2, blankBlockScan]
+          · simp [skipEol, h1, h2, g1, g2, scan_cr_other _ _ _ hd, hd, hlt]
+      · rw [h2, scan_other _ _ _ hb32 hb hc]
+        unfold skipEol
+        rw [h1]
+        split <;> simp_all
+
+theorem blankBlockScan_skipBlankBlockGo (s : Src) (n p c : Nat) (hn : s.size - p + 1 ≤ n) (hp : p ≤ s.size) :
+    blankBlockScan (rest s p) (rest s p) c =
+      (let qc := skipBlankBlockGo s n p c
+       if s.size ≤ skipBlankInline s qc.1 then some (qc.2, [])
+       else if qc.2 == 0 then none else some (qc.2, rest s qc.1)) := by
+  induction n generalizing p c with
+  | zero => omega
+  | succ n ih =>
+    rw [scan_spaces_go s (rest s p) c (s.size - p) p (Nat.le_refl _)]
+    change blankBlockScan (rest s (skipBlankInline s p)) (rest s p) c = _
+    rw [scan_line s (rest s p) c _ (skipBlankInline_stop s p)]
+    rcases h : skipEol s (skipBlankInline s p) with _ | q
+    · simp [skipBlankBlockGo, h]
+    · simp only [skipBlankBlockGo, h]
+      have hq := skipEol_some h
+      have hle := (skipBlankInline_after s p).le
+      have hq2 : q ≤ s.size := ((skipBlankInline_after s p).trans (skipEol_after h)).le_size hp
+      exact ih q (c + 1) (by omega) hq2
+
+/-- T1: `blank_block` versus `skip_blank_block`.  With `(q, c) = skip_blank_block p`: when the line at
+`q` has a non-blank character the grammar's blank block is the same `c` line breaks ending at `q`
+(and fails when `c = 0`); when only spaces remain up to `EOF` the grammar's blank block also takes
+those spaces (`blank_inline? EOF`), which `skip_blank_block` leaves in place. -/
+theorem blankBlock_eq_skipBlankBlock (s : Src) (p : Nat) (hp : p ≤ s.size) :
+    blankBlock (rest s p) =
+      (let qc := skipBlankBlock s p
+       if s.size ≤ skipBlankInline s qc.1 then some (qc.2, [])
+       else if qc.2 == 0 then none else some (qc.2, rest s qc.1)) :=
+  blankBlockScan_skipBlankBlockGo s _ p 0 (Nat.le_refl _) hp
+
+
+/-! ## segments of the source, scanning loops -/
+
+/-- the bytes of `s` in `[p, q)` -/
+def seg (s : Src) (p q : Nat) : List UInt8 := (rest s p).take (q - p)
+
+theorem spanBytes_eq_seg (s : Src) (p q : Nat) : spanBytes s ⟨p, q⟩ = seg s p q := by
+  simp [spanBytes, seg, rest]
+
+theorem seg_self (s : Src) (p : Nat) : seg s p p = [] := by simp [seg]
+
+theorem seg_cons {s : Src} {p q : Nat} {b : UInt8} (h : s[p]? = some b) (hq : p < q) :
+    seg s p q = b :: seg s (p + 1) q := by
+  unfold seg
+  rw [rest_cons h, show q - p = (q - (p + 1)) + 1 by omega, List.take_succ_cons]
+
+theorem scanWhileGo_ge (s : Src) (pred : UInt8 → Bool) (n p : Nat) : p ≤ scanWhileGo s pred n p := by
+  induction n generalizing p with
+  | zero => simp [scanWhileGo]
+  | succ n ih =>
+    simp only [scanWhileGo]
+    split
+    · split
+      · have := ih (p + 1); omega
+      · omega
+    · omega
+
+theorem takeWhile_scanWhileGo (s : Src) (pred : UInt8 → Bool) (n p : Nat) (hn : s.size - p ≤ n) :
+    (rest s p).takeWhile pred = seg s p (scanWhileGo s pred n p) ∧
+    (rest s p).dropWhile pred = rest s (scanWhileGo s pred n p) := by
+  induction n generalizing p with
+  | zero =>
+    have : rest s p = [] := rest_eq_nil_iff.mpr (by omega)
+    simp [scanWhileGo, this, seg]
+  | succ n ih =>
+    rcases rest_cases s p with ⟨h1, h2⟩ | ⟨b, h1, h2⟩
+    · simp [scanWhileGo, h1, h2, seg]
+    · by_cases hb : pred b = true
+      · have hge := scanWhileGo_ge s pred n (p + 1)
+        have ⟨i1, i2⟩ := ih (p + 1) (by omega)
+        simp only [scanWhileGo, h1, hb, if_true]
+        rw [seg_cons h1 (by omega), h2, List.takeWhile_cons, List.dropWhile_cons]
+        simp [hb, i1, i2]
+      · simp only [scanWhileGo, h1, hb]
+        rw [h2, List.takeWhile_cons, List.dropWhile_cons]
+        simp [hb, seg_self, ← h2]
+
+theorem takeWhile_scanWhile (s : Src) (pred : UInt8 → Bool) (p : Nat) :
+    (rest s p).takeWhile pred = seg s p (scanWhile s pred p) ∧
+    (rest s p).dropWhile pred = rest s (scanWhile s pred p) :=
+  takeWhile_scanWhileGo s pred _ p (Nat.le_refl _)
+
+/-! ## character classes coincide -/
+
+theorem isAlphaC_eq : ∀ b : UInt8, isAlphaC b = isAlpha b := by
+  apply forall_uint8; decide +kernel
+theorem isDigitC_eq : ∀ b : UInt8, isDigitC b = isDigit b := by
+  apply forall_uint8; decide +kernel
+theorem isIdentC_eq : ∀ b : UInt8, isIdentC b = isIdentByte b := by
+  apply forall_uint8; decide +kernel
+theorem isHexC_eq : ∀ b : UInt8, isHexC b = isHexDigit b := by
+  apply forall_uint8; decide +kernel
+theorem isIdentC_fun : isIdentC = isIdentByte := funext isIdentC_eq
+theorem isDigitC_fun : isDigitC = isDigit := funext isDigitC_eq
+
+/-! ## Identifier -/
+
+/-- T1: `get_identifier` succeeds exactly when the grammar's `Identifier` rule matches, on exactly the
+same bytes `s[p..q)`, leaving the same rest; it never panics. -/
+theorem identifier_eq_getIdentifier {s : Src} (hs : AsciiThenBoundary s) (p : Nat) :
+    match getIdentifier s p with
+    | .ok sp q => sp = ⟨p, q⟩ ∧ p < q ∧ identifier (rest s p) = some (spanBytes s sp, rest s q)
+    | .err _ _ => identifier (rest s p) = none
+    | .panic _ => False
+    | .fuel => False := by
+  unfold getIdentifier
+  rcases rest_cases s p with ⟨h1, h2⟩ | ⟨b, h1, h2⟩
+  · simp [isIdentifierStart, h1, h2, identifier]
+  · by_cases hb : isAlpha b = true
+    · have hst : isIdentifierStart s p = true := by simp [isIdentifierStart, h1, hb]
+      simp only [hst, Bool.not_true, Bool.false_eq_true, if_false]
+      unfold getIdentifierUnchecked
+      have hafter := scanWhile_after s isIdentByte isIdentByte_lt (p + 1)
+      have hasc : Asc s p := ⟨b, h1, isAlpha_lt b hb⟩
+      have hb1 : Bnd s (p + 1) := hasc.bnd_succ hs
+      have hq : Bnd s (scanWhile s isIdentByte (p + 1)) := hafter.bnd hs hb1
+      have hle := hafter.le
+      have hsl : slice s p (scanWhile s isIdentByte (p + 1)) = some ⟨p, scanWhile s isIdentByte (p + 1)⟩ :=
+        slice_ok (by omega) hasc.bnd hq
+      have hu : usub (p + 1) 1 = some p := by simp [usub]
+      simp only [hu, hsl]
+      refine ⟨trivial, by omega, ?_⟩
+      have ⟨t1, t2⟩ := takeWhile_scanWhile s isIdentByte (p + 1)
+      rw [h2, spanBytes_eq_seg, seg_cons h1 (by omega)]
+      simp [identifier, isAlphaC_eq, hb, isIdentC_fun, t1, t2]
+    · have hst : isIdentifierStart s p = false := by simp [isIdentifierStart, h1, hb]
+      simp only [hst, Bool.not_false, if_true]
+      simp [h2, identifier, isAlphaC_eq, hb]
+
+
+/-! ## NumberLiteral -/
+
+theorem seg_length {s : Src} {p q : Nat} (hq : q ≤ s.size) : (seg s p q).length = q - p := by
+  simp [seg, rest]; omega
+
+theorem seg_append {s : Src} {p q r : Nat} (h1 : p ≤ q) (h2 : q ≤ r) : seg s p r = seg s p q ++ seg s q r := by
+  unfold seg rest
+  rw [show r - p = (q - p) + (r - q) by omega, List.take_add, List.drop_drop]
+  rw [show p + (q - p) = q by omega]
+
+theorem digits_eq_skipDigits (s : Src) (p : Nat) (hp : p ≤ s.size) :
+    match skipDigits s p with
+    | .ok _ q => p < q ∧ After s p q ∧ digits (rest s p) = some (seg s p q, rest s q)
+    | .err _ q => q = p ∧ digits (rest s p) = none
+    | .panic _ => False
+    | .fuel => False := by
+  unfold skipDigits
+  have ⟨t1, t2⟩ := takeWhile_scanWhile s isDigit p
+  have haft := scanWhile_after s isDigit isDigit_lt p
+  by_cases h : scanWhile s isDigit p = p
+  · rw [h] at t1
+    simp [h, digits, isDigitC_fun, t1, seg_self]
+  · have hne : (scanWhile s isDigit p == p) = false := by simpa using h
+    have hle := haft.le
+    have hsz := haft.le_size hp
+    simp only [hne, Bool.false_eq_true, if_false]
+    refine ⟨by omega, haft, ?_⟩
+    have hlen : (seg s p (scanWhile s isDigit p)).length = scanWhile s isDigit p - p := seg_length hsz
+    have hnil : (seg s p (scanWhile s isDigit p)).isEmpty = false := by
+      cases hseg : seg s p (scanWhile s isDigit p) with
+      | nil => rw [hseg] at hlen; simp at hlen; omega
+      | cons a t => rfl
+    simp [digits, isDigitC_fun, t1, t2, hnil]
+
+/-- the part of `get_number_literal` after the optional sign (`start` = where the literal began) -/
+def numRest (s : Src) (start p1 : Nat) : R Span :=
+  match skipDigits s p1 with
+  | .ok _ p2 =>
+    let (p3, dot) := takeByteIf s p2 46
+    if dot then
+      match skipDigits s p3 with
+      | .ok _ p4 => (match slice s start p4 with | some sp => .ok sp p4 | none => .panic "get_number_literal slice")
+      | .err e q => .err e q
+      | .panic m => .panic m
+      | .fuel => .fuel
+    else (match slice s start p3 with | some sp => .ok sp p3 | none => .panic "get_number_literal slice")
+  | .err e q => .err e q
+  | .panic m => .panic m
+  | .fuel => .fuel
+
+theorem getNumberLiteral_eq_numRest (s : Src) (p : Nat) :
+    getNumberLiteral s p = numRest s p (takeByteIf s p 45).1 := by
+  unfold getNumberLiteral numRest
+  rcases takeByteIf s p 45 with ⟨p1, d⟩
+  rfl
+
+theorem numberAfterSign_no_dot (sign d : List UInt8) (i2 : List UInt8) (i1 : List UInt8)
+    (hd : digits i1 = some (d, i2)) (h : ∀ r, i2 ≠ 46 :: r) :
+    numberAfterSign sign i1 = some (sign ++ d, i2) := by
+  unfold numberAfterSign
+  rw [hd]
+  simp only
+  split
+  · rename_i r heq; exact absurd heq (h r)
+  · rfl
+
+theorem numRest_spec {s : Src} (hs : AsciiThenBoundary s) (start p1 : Nat) (hst : Bnd s start)
+    (haft : After s start p1) :
+    match numRest s start p1 with
+    | .ok sp q => sp = ⟨start, q⟩ ∧ p1 < q ∧
+        numberAfterSign (seg s start p1) (rest s p1) = some (seg s start q, rest s q)
+    | .err _ _ => numberAfterSign (seg s start p1) (rest s p1) = none ∨
+        ∃ q, p1 < q ∧ s[q]? = some 46 ∧
+          numberAfterSign (seg s start p1) (rest s p1) = some (seg s start q, rest s q)
+    | .panic _ => False
+    | .fuel => False := by
+  have hp1 : p1 ≤ s.size := haft.le_size hst.le
+  have hle1 := haft.le
+  unfold numRest
+  have hd1 := digits_eq_skipDigits s p1 hp1
+  rcases h1 : skipDigits s p1 with ⟨_, p2⟩ | ⟨e, q⟩ | m | _
+  · rw [h1] at hd1
+    obtain ⟨hlt, haft2, hdig⟩ := hd1
+    have hp2 : p2 ≤ s.size := haft2.le_size hp1
+    have hb2 : Bnd s p2 := (haft.trans haft2).bnd hs hst
+    simp only
+    by_cases hdot : s[p2]? = some 46
+    · have htb : takeByteIf s p2 46 = (p2 + 1, true) := by simp [takeByteIf, isCurrentByte, hdot]
+      simp only [htb, if_true]
+      have hp3 : p2 + 1 ≤ s.size := by have := get_lt hdot; omega
+      have hd3 := digits_eq_skipDigits s (p2 + 1) hp3
+      have hr2 : rest s p2 = 46 :: rest s (p2 + 1) := rest_cons hdot
+      rcases h3 : skipDigits s (p2 + 1) with ⟨_, p4⟩ | ⟨e, q⟩ | m | _
+      · rw [h3] at hd3
+        obtain ⟨hlt3, haft3, hdig3⟩ := hd3
+        have haft23 : After s p2 (p2 + 1) := After.step ⟨46, hdot, by decide⟩
+        have hb4 : Bnd s p4 := (haft23.trans haft3).bnd hs hb2
+        have hsl : slice s start p4 = some ⟨start, p4⟩ := slice_ok (by omega) hst hb4
+        simp only [hsl]
+        refine ⟨trivial, by omega, ?_⟩
+        unfold numberAfterSign
+        rw [hdig]
+        simp only [hr2, hdig3]
+        rw [seg_append (s := s) (p := start) (q := p1) (r := p4) (by omega) (by omega),
+            seg_append (s := s) (p := p1) (q := p2) (r := p4) (by omega) (by omega),
+            seg_cons (s := s) (p := p2) (q := p4) hdot (by omega)]
+        simp
+      · rw [h3] at hd3
+        simp only
+        right
+        refine ⟨p2, hlt, hdot, ?_⟩
+        unfold numberAfterSign
+        rw [hdig]
+        simp only [hr2, hd3.2]
+        rw [seg_append (s := s) (p := start) (q := p1) (r := p2) (by omega) (by omega)]
+      · rw [h3] at hd3; exact hd3
+      · rw [h3] at hd3; exact hd3
+    · have htb : takeByteIf s p2 46 = (p2, false) := by simp [takeByteIf, isCurrentByte, hdot]
+      simp only [htb, Bool.false_eq_true, if_false]
+      have hsl : slice s start p2 = some ⟨start, p2⟩ := slice_ok (by omega) hst hb2
+      simp only [hsl]
+      refine ⟨trivial, hlt, ?_⟩
+      rw [numberAfterSign_no_dot _ _ _ _ hdig]
+      · rw [seg_append (s := s) (p := start) (q := p1) (r := p2) (by omega) (by omega)]
+      · intro r hr
+        rcases rest_cases s p2 with ⟨g1, g2⟩ | ⟨b, g1, g2⟩
+        · rw [g2] at hr; cases hr
+        · rw [g2] at hr
+          injection hr with hb _
+          subst hb; exact hdot g1
+  · rw [h1] at hd1
+    simp only
+    left
+    unfold numberAfterSign
+    rw [hd1.2]
+  · rw [h1] at hd1; exact hd1
+  · rw [h1] at hd1; exact hd1
+
+theorem numberLiteral_no_sign (i : List UInt8) (h : ∀ r, i ≠ 45 :: r) : numberLiteral i = numberAfterSign [] i := by
+  unfold numberLiteral
+  split
+  · rename_i r; exact absurd rfl (h r)
+  · rfl
+
+/-- T1/T2: `get_number_literal` versus the grammar's `NumberLiteral`.  Success = the PEG rule matches
+exactly `s[p..q)`.  The one asymmetry: on `digits "."` not followed by a digit the Rust scanner reports
+an error where the PEG rule matches the digits and stops before the dot (every context of the grammar
+then fails on that dot, so both reject the enclosing entry). -/
+theorem numberLiteral_eq_getNumberLiteral {s : Src} (hs : AsciiThenBoundary s) (p : Nat) (hp : Bnd s p) :
+    match getNumberLiteral s p with
+    | .ok sp q => sp = ⟨p, q⟩ ∧ p < q ∧ numberLiteral (rest s p) = some (spanBytes s sp, rest s q)
+    | .err _ _ => numberLiteral (rest s p) = none ∨
+        ∃ q, p < q ∧ s[q]? = some 46 ∧ numberLiteral (rest s p) = some (seg s p q, rest s q)
+    | .panic _ => False
+    | .fuel => False := by
+  rw [getNumberLiteral_eq_numRest]
+  by_cases h45 : s[p]? = some 45
+  · have htb : takeByteIf s p 45 = (p + 1, true) := by simp [takeByteIf, isCurrentByte, h45]
+    have haft : After s p (p + 1) := After.step ⟨45, h45, by decide⟩
+    have hspec := numRest_spec hs p (p + 1) hp haft
+    have hseg : seg s p (p + 1) = [45] := by rw [seg_cons h45 (by omega), seg_self]
+    have hnl : numberLiteral (rest s p) = numberAfterSign [45] (rest s (p + 1)) := by
+      rw [rest_cons h45]; rfl
+    rw [htb]
+    simp only
+    rw [hseg] at hspec
+    rcases hr : numRest s p (p + 1) with ⟨sp, q⟩ | ⟨e, q⟩ | m | _
+    · rw [hr] at hspec
+      obtain ⟨e1, e2, e3⟩ := hspec
+      subst e1
+      exact ⟨rfl, by omega, by rw [hnl, e3, spanBytes_eq_seg]⟩
+    · rw [hr] at hspec
+      simp only
+      rcases hspec with h | ⟨q, q1, q2, q3⟩
+      · left; rw [hnl, h]
+      · right; exact ⟨q, by omega, q2, by rw [hnl, q3]⟩
+    · rw [hr] at hspec; exact hspec
+    · rw [hr] at hspec; exact hspec
+  · have htb : takeByteIf s p 45 = (p, false) := by simp [takeByteIf, isCurrentByte, h45]
+    have hspec := numRest_spec hs p p hp (After.refl s p)
+    have hnl : numberLiteral (rest s p) = numberAfterSign [] (rest s p) := by
+      apply numberLiteral_no_sign
+      intro r hr
+      rcases rest_cases s p with ⟨g1, g2⟩ | ⟨b, g1, g2⟩
+      · rw [g2] at hr; cases hr
+      · rw [g2] at hr
+        injection hr with hb _
+        subst hb; exact h45 g1
+    rw [htb]
+    simp only
+    rw [seg_self] at hspec
+    rcases hr : numRest s p p with ⟨sp, q⟩ | ⟨e, q⟩ | m | _
+    · rw [hr] at hspec
+      obtain ⟨e1, e2, e3⟩ := hspec
+      subst e1
+      exact ⟨rfl, e2, by rw [hnl, e3, spanBytes_eq_seg]⟩
+    · rw [hr] at hspec
+      simp only
+      rcases hspec with h | ⟨q, q1, q2, q3⟩
+      · left; rw [hnl, h]
+      · right; exact ⟨q, q1, q2, by rw [hnl, q3]⟩
+    · rw [hr] at hspec; exact hspec
+    · rw [hr] at hspec; exact hspec
+
 end FluentProofs.SpecLex
